@@ -77,6 +77,19 @@ func workerC13(thorough bool, shard, nshards int) {
 			r.State = append(r.State, sc.name+fmt.Sprint(t.Choices))
 			return r
 		}
+		if cs, ok := parseCompact(only); ok && only != "" {
+			if shard == 0 {
+				run(&mc.Tape{}) // fixes the horizon
+				rw := replayOne(sc.name, run, cs)
+				for i := range rw.Failures {
+					rw.Failures[i].Key = sc.name + " schedule " + compact(cs)
+				}
+				emit(rw)
+			} else {
+				emit(envrun.WorkerResult{})
+			}
+			return
+		}
 		// Choose the preemption bound: the largest b <= 3 whose number of schedules
 		// (estimated from the alternatives of the default execution) fits the budget.
 		probe := &mc.Tape{}
